@@ -207,7 +207,7 @@ def compile_batch(ctx, b, variants=(("gcc", "-O1"),)):
     for attempt in range(6):
         drv = os.path.join(b.cdir, "driver.c")
         with open(drv, "w") as f:
-            f.write(wcore.gen_driver_c(b.progs))
+            f.write(wcore.gen_driver_c(b.progs, b.cdir))
         cc, opt = variants[0]
         exe = os.path.join(b.cdir, "driver-%s%s" % (cc, opt))
         r = subprocess.run([cc, opt, "-o", exe, drv], capture_output=True, text=True, cwd=b.cdir, timeout=900)
@@ -427,6 +427,26 @@ def replay(ctx, b, hists, exe, per_line_s=3.0, dead=None):
                                 "c_says": rep,
                                 "source": p["src"]})
                     break
+            else:
+                # every call agreed: the observable receiver state at the end of the history (not after an error: the
+                # object is dead then and its contents are unspecified)
+                last = h["hist"][-1] if h["hist"] else None
+                fl = wcore.parse_fields(outl[start + 1 + len(h["hist"])]) if start + 1 + len(h["hist"]) < len(outl) else None
+                # (only for histories that ended normally: a call that the model abandoned - out of fuel, out of the
+                # modelled fragment - is not part of `hist` but may already have changed the model's receiver)
+                if fl is not None and "th" in h and last is not None and not last.get("disabled") and (h.get("fault") or {}).get("k") == "none":
+                    for fname, want in h["th"].items():
+                        got = fl.get(fname)
+                        if got is None or isinstance(want, str):
+                            continue
+                        w2 = list(want) if isinstance(want, (list, tuple)) else want
+                        if isinstance(w2, list) and isinstance(got, int):
+                            got = [got]
+                        if got != w2:
+                            bad.append({"prog": p["name"], "origin": p["origin"], "input": h["input"], "call_index": len(h["hist"]) - 1, "history": h["hist"],
+                                        "spec_expects": {"field": fname, "value": w2}, "c_says": {"field": fname, "value": got},
+                                        "source": p["src"]})
+                            break
     return bad, calls
 
 
